@@ -19,7 +19,8 @@ RULE = ("Hypothesis draws backend (memory/PathIO/AsyncPathIO), server block size
         "server on simnet. Oracle: byte model (dict path->bytes); after each upload's completion reply the backend "
         "content read directly, stat size and MLSD size seen by a second session, and a whole download by that second "
         "session must equal the model. Non-trivial = length > block size with len % block != 0, or offset > 0, or a "
-        "payload with special bytes; distinct by hash of the whole case.")
+        "payload with special bytes; distinct by hash of the whole case. "
+        "readers: 2-4 sessions download / stat / list one stored file at the same time (workers paced by a per-connection limit); each download must be exact; non-trivial = two transfer workers were inside the file together.")
 ASSUMPTIONS = [
     "restart writes to a missing file are outside this property (answered 451 on every backend; C18)",
     "a restart offset beyond the end zero-fills only if at least one byte is then written (POSIX and BytesIO agree)",
@@ -321,5 +322,101 @@ def replay_bytes(case):
     check(Ctx(PROPERTY, "bytes", "thorough", 0, 0, 1), tuple(case))
 
 
+# ---------------------------------------------------------------- several sessions read one stored file at the same time
+READERS = st.tuples(st.sampled_from(["mem", "mem", "fs", "afs"]), st.sampled_from([1, 3, 8, 64, 8192]), st.integers(0, 255), st.integers(0, 6),
+                    st.lists(st.tuples(st.sampled_from(["retr", "retr", "retr_off", "stat", "list", "size_via_mlst"]), st.integers(0, 255),
+                                       st.sampled_from([0, 0.001, 0.01, 0.3])), min_size=2, max_size=4),
+                    st.lists(st.integers(0, 255), max_size=60), st.sampled_from([None, 2000, 2000, 20000, 50000]))
+
+
+async def _readers(loop, case, info, tmp):
+    backend, block, sel, pattern, sessions, tape, pace = case
+    size = max(2 * block + 1, size_for(sel, block, False))
+    data = payload_for(size, pattern, sel)
+    users = [aioftp.User(base_path=tmp)] if backend != "mem" else [aioftp.User()]
+    # a per-connection write limit paces the server's transfer workers, so that they are really inside the file together
+    server = aioftp.Server(users, path_io_factory=harness.BACKENDS[backend], block_size=block, write_speed_limit_per_connection=pace)
+    await server.start(HOST, PORT)
+    up = aioftp.Client(path_io_factory=aioftp.MemoryPathIO)
+    await up.connect(HOST, PORT)
+    await up.login()
+    async with up.upload_stream("f.bin") as s_:
+        await s_.write(data)
+    await up.quit()
+    info["size"] = size
+    active = [0]
+    overlap = [0]
+
+    async def one(i, kind, osel, pause):
+        c = aioftp.Client(path_io_factory=aioftp.MemoryPathIO)
+        await c.connect(HOST, PORT)
+        await c.login()
+        try:
+            await asyncio.sleep(pause * i)
+            if kind in ("retr", "retr_off"):
+                off = 0 if kind == "retr" else [1, block, size // 2, size - 1, size][osel % 5]
+                got = b""
+                active[0] += 1
+                try:
+                    async with c.download_stream("f.bin", offset=off) as s_:
+                        async for blk in s_.iter_by_block(max(1, block * (1 + osel % 3))):
+                            got += blk
+                            if sum(1 for conn in list(server.connections.values()) if any(not w.done() for w in conn.extra_workers)) > 1:
+                                overlap[0] += 1
+                            if pause:
+                                await asyncio.sleep(pause)
+                finally:
+                    active[0] -= 1
+                if got != data[off:]:
+                    raise Violation(f"C01/readers/{kind}/wrong_bytes_while_another_session_uses_the_file",
+                                    dict(backend=backend, block=block, size=size, session=i, offset=off, got_len=len(got), expected_len=size - off,
+                                         first_difference=next((k for k, (a, b) in enumerate(zip(got, data[off:])) if a != b), min(len(got), size - off)),
+                                         sessions=[x[0] for x in sessions]))
+            else:
+                for _ in range(1 + osel % 4):
+                    if kind == "list":
+                        sizes = [int(i_["size"]) for p_, i_ in await c.list() if p_.name == "f.bin"]
+                    else:
+                        sizes = [int((await c.stat("f.bin"))["size"])]
+                    if sizes != [size]:
+                        raise Violation(f"C01/readers/{kind}/wrong_size", dict(backend=backend, size=size, got=sizes))
+                    await asyncio.sleep(pause or 0.002)
+            await c.quit()
+        finally:
+            c.close()
+
+    try:
+        await asyncio.gather(*[one(i, *s_) for i, s_ in enumerate(sessions)])
+    finally:
+        info["overlap"] = overlap[0]
+        await asyncio.wait_for(server.close(), 1000)
+
+
+def check_readers(ctx, case):
+    backend, block, sel, pattern, sessions, tape, pace = case
+    info = {}
+    try:
+        with harness.TempDirs() as td:
+            tmp = td.new() if backend != "mem" else None
+            simnet.run(lambda loop: _readers(loop, case, info, tmp), tape)
+    finally:
+        ctx.count(case, info.get("overlap", 0) > 0,
+                  sample=dict(backend=backend, block=block, size=info.get("size"), sessions=[(k, p) for k, _o, p in sessions], pace=pace,
+                              blocks_read_while_two_transfer_workers_were_running=info.get("overlap")),
+                  classes=["readers_" + backend, "readers_overlap" if info.get("overlap") else "readers_sequential"]
+                  + ["readers_with_" + k for k in sorted({k for k, _o, _p in sessions})])
+
+
+def part_readers(ctx):
+    n = 150 if ctx.tier == "quick" else 2500
+    hyp_run(ctx, READERS, lambda c: check_readers(ctx, c), n, name="readers")
+
+
+def replay_readers(case):
+    from vlib.runner import Ctx
+    backend, block, sel, pattern, sessions, tape, pace = case
+    check_readers(Ctx(PROPERTY, "readers", "thorough", 0, 0, 1), (backend, block, sel, pattern, [tuple(x) for x in sessions], tape, pace))
+
+
 def plan(tier):
-    return [("bytes", 16)]
+    return [("bytes", 16), ("readers", 16)]
